@@ -1056,7 +1056,8 @@ func (r *Raft) sendAppendEntries(id string, address string, round *verificationR
 
 	// If the majority of cluster acknowledges the request, this node is a legitimate leader.
 	// Try to apply pending read-only operations.
-	if round != nil {
+	// Only the responses of voting members count towards the quorum.
+	if round != nil && r.isVoter(id) {
 		round.numResponses++
 		if r.hasQuorum(round.numResponses) {
 			r.operationManager.markOperationsAsVerified(round.operations)
